@@ -1,7 +1,7 @@
 """C01 C02 C04 C19: specification vectors replayed into the Python codec."""
 import json
 
-from . import wire, pywire, cppwire, pytrace, shadows
+from . import wire, pywire, cppwire, rawwire, pytrace, shadows
 from .common import Report, scratch_dir
 
 
@@ -139,6 +139,7 @@ def c06(tier, replay):
     groups = wire.group_vectors(vs)
     results = wire.run_batches(pywire.fault_worker, groups, vs, {"scratch": scratch_dir("py")})
     outcomes = {}
+    pending = []
     for r in results:
         if "crash" in r:
             rep.violation({"what": "worker crashed or hung: %s" % r["crash"], "groups": r["groups"]})
@@ -153,6 +154,24 @@ def c06(tier, replay):
             outcomes[k] = outcomes.get(k, 0) + n
         for f in r["fails"]:
             rep.violation(f, shadows.match("C06", f))
+        pending += r.get("pending", [])
+    if pending:
+        # unlimited roots whose decode/encode/decode was not a fixpoint: TLC
+        # encodes the decoded walk; the fixpoint is owed only if the
+        # specification says the greedy tail ends aligned
+        verdicts, illegal, st = wire.validate_traces([p["item"] for p in pending])
+        rep.add_tlc(st)
+        for p, v in zip(pending, verdicts):
+            if v is None:
+                rep.violation(dict(p["fail"], what="decoded message is not a value of the schema: " + p["fail"]["what"]))
+            elif (v["dL"] if p["order"] == "<" else v["dB"]):
+                rep.violation(dict(p["fail"], what="re-encoding of the decoded message differs from the "
+                                                   "specification; " + p["fail"]["what"]))
+            elif v["gta"]:
+                rep.violation(p["fail"], shadows.match("C06", p["fail"]))
+            else:
+                outcomes["greedy-tail-unaligned (fixpoint not owed)"] = \
+                    outcomes.get("greedy-tail-unaligned (fixpoint not owed)", 0) + 1
     rep.cov["outcomes (fault/python/spec-decoder)"] = outcomes
     rep.cov["rule"] = ("TLC enumerates, for every enumerated (schema, value), every faulted image of its canonical "
                        "encoding; each is decoded by the real codec; non-trivial = a faulted (not canonical) input; "
@@ -172,7 +191,8 @@ def _select_cpp(groups, tier, cap_quick=600, cap_thorough=12000):
     if len(groups) <= cap:
         return groups
     rnd = random.Random(wire.seed())
-    return rnd.sample(groups, cap)
+    pinned = [g for g in groups if g.get("pinned")]
+    return pinned + rnd.sample([g for g in groups if not g.get("pinned")], cap)
 
 
 def cpp_leg(rep, vs, checks, tier, nbatch=12):
@@ -211,6 +231,7 @@ def _run_cpp(pid, tier, checks, assumptions, rule, vs=None, nbatch=12):
     rep = Report(pid, tier)
     rep.assumptions = assumptions
     vs = vs or wire.generate(tier, light=True)
+    wire.add_reproducers(vs, pid)
     for st in vs.stats:
         rep.add_tlc(st)
     cpp_leg(rep, vs, checks, tier, nbatch)
@@ -289,3 +310,54 @@ def c18(tier, replay):
     cpp_leg(rep, vs2, ["print"], tier)
     rep.cov["rule"] = RULE_CPP + "; text comes from spec/Print.tla for the re-payloaded walk"
     return rep.finish()
+
+
+def raw_leg(rep, vs, checks, tier, nbatch=12):
+    pid = rep.pid
+    all_groups = wire.group_vectors(vs)
+    groups = _select_cpp(all_groups, tier, cap_quick=800)
+    results = wire.run_batches(rawwire.worker, groups, vs, {"checks": checks, "scratch": scratch_dir("raw")},
+                               nbatch=nbatch, timeout=3000)
+    for r in results:
+        if "crash" in r:
+            rep.violation({"what": "worker crashed or hung: %s" % r["crash"], "groups": r["groups"]})
+            continue
+        rep.count(r["n_cases"])
+        rep.validated(r["n_cases"])
+        for s in r["samples"]:
+            rep.sample(s)
+        for gid in r["nontrivial"]:
+            rep.nontrivial("raw:%s" % gid)
+        for f in r["fails"]:
+            rep.violation(f, shadows.match(pid, f))
+        for k, n in r.get("n_checked", {}).items():
+            rep.cov["raw_checked_" + k] = rep.cov.get("raw_checked_" + k, 0) + n
+    rep.cov["raw_schemas"] = len(groups)
+    rep.cov["raw_schemas_available"] = len(all_groups)
+
+
+ASSUME_RAW = ASSUME_COMMON + [
+    "generated raw C++ (--cpp_out) built with g++ 12 (GCC x86-64 ABI) -O0 -fsanitize=address,undefined; message "
+    "buffers are 8-aligned and surrounded by guard bytes"]
+
+
+def _run_raw(pid, tier, checks, rule):
+    rep = Report(pid, tier)
+    rep.assumptions = ASSUME_RAW
+    vs = wire.generate(tier, light=True)
+    wire.add_reproducers(vs, pid)
+    for st in vs.stats:
+        rep.add_tlc(st)
+    raw_leg(rep, vs, checks, tier)
+    rep.cov["rule"] = rule
+    rep.cov["exhaustive"] = rep.cov["raw_schemas"] == rep.cov["raw_schemas_available"]
+    return rep.finish()
+
+
+def c08(tier, replay):
+    return _run_raw("C08", tier, ["offsets"], RULE + "; evaluations = offsetof/sizeof table entries compared with "
+                    "spec/Layout.tla RawTable (offsets relative to the start of the struct or part)")
+
+
+def c09(tier, replay):
+    return _run_raw("C09", tier, ["swap"], RULE + "; evaluations = swap cases (one per enumerated value)")
